@@ -30,6 +30,7 @@ fn main() {
         "c10" => c_bus::run(&mut out, seed, thorough),
         "c05" => c_mach::run_c05(&mut out, seed, thorough),
         "c07" => c_mach::run_c07(&mut out, seed, thorough),
+        "c11" => c_mach::run_c11(&mut out, seed, thorough),
         "c13" => c_mach::run_c13(&mut out, seed, thorough),
         "replay" => gen::replay(&mut out, &extra),
         _ => {
